@@ -248,6 +248,7 @@ def run(sc: dict) -> Result:
             pool = cl.pool
             live: dict = {}
             injected: list = []
+            caller_abandoned: set = set()  # sockets still owned by a response at the moment the *caller* let that response go
 
             def check_open(where):
                 if block:
@@ -330,6 +331,8 @@ def run(sc: dict) -> Result:
                         continue
                     how = op["how"]
                     if how == "drop":
+                        _note_caller_abandoned(r, caller_abandoned)
+
                         def _drop():
                             nonlocal r
                             r = None
@@ -337,6 +340,7 @@ def run(sc: dict) -> Result:
                         guarded("dispose:drop", _drop)
                     else:
                         guarded("dispose:" + how, lambda: _dispose(r, how))
+                    _note_caller_abandoned(r, caller_abandoned)
                     r = None
                     check_open("dispose")
             # everything the caller still holds is now read and released
@@ -417,6 +421,11 @@ def run(sc: dict) -> Result:
             left = w.open_sockets()
             if left:
                 res.bad("socket_leak@close", f"{len(left)} sockets open after pool.close(): {left}")
+            # "closed" = closed by urllib3; a socket that only went away because its last reference did is one urllib3 lost track of
+            # (close_dealloc_fp -- close() was called and only an unread response's file object kept the descriptor -- is fine)
+            by_gc = [e[2] for e in w.events if e[1] == "close_dealloc" and e[2] not in caller_abandoned]
+            if by_gc:
+                res.bad("socket_abandoned_unclosed", f"sockets {by_gc} were never closed by urllib3, only reclaimed when the socket object was deallocated")
             cl = pool = None
         except (W.SeamError,):
             raise
@@ -426,6 +435,15 @@ def run(sc: dict) -> Result:
         res.sim_s = w.now - W.VClock.START
         res.steps = w.io_step
     return res
+
+
+def _note_caller_abandoned(r, acc: set) -> None:
+    """A response the caller drops while it still owns its connection (never released, close() not reached):
+    that socket's fate is the caller's doing, not a socket urllib3 lost track of."""
+    conn = getattr(r, "connection", None)
+    s = W._base_socket(getattr(conn, "sock", None)) if conn is not None else None
+    if isinstance(s, W.SimSocket):
+        acc.add(s.sid)
 
 
 def _intr_count(w) -> int:
@@ -510,6 +528,17 @@ def _neut_close_only(sc):
     return sc
 
 
+def _trig_released_unread(sc, res):
+    # release_conn=True hands the connection back while the caller still holds the unread response
+    return sc["config"]["block"] and sc["config"].get("release_conn") is True and not sc["config"]["preload"]
+
+
+def _neut_released_unread(sc):
+    sc["config"]["release_conn"] = None
+    return sc
+
+
 KNOWN = {
     "KF-C01-close-only": (_trig_close_only, _neut_close_only),
+    "KF-C01-released-unread-response-keeps-socket": (_trig_released_unread, _neut_released_unread),
 }
